@@ -1,6 +1,7 @@
 CONSTANTS
   Fids = {0, 1, 2}
   Sample = 40
+  SampleChange = 3
   NOFID = 99
   MaxH = 4
   NameLists <- NL_quick
